@@ -1449,7 +1449,7 @@ impl Linearizer {
         constraints: Vec<Constraint>,
         mut domain: IndexMap<String, DomainVariable>,
     ) -> Self {
-        let bounds = BoundsAnalyzer::analyze(&domain, &constraints);
+        let bounds = BoundsAnalyzer::analyze(&domain, &normalized_for_bounds(&constraints));
         bounds.apply_to_domain(&mut domain);
         Self::new_from_with_bounds(constraints, domain, bounds)
     }
@@ -1547,7 +1547,7 @@ impl Linearizer {
     /// * `Err(LinearizationError)` - If linearization fails
     pub fn linearize(model: Model) -> Result<LinearModel, LinearizationError> {
         let (objective, constraints, mut domain) = model.into_components();
-        let bounds = BoundsAnalyzer::analyze(&domain, &constraints);
+        let bounds = BoundsAnalyzer::analyze(&domain, &normalized_for_bounds(&constraints));
         bounds.apply_to_domain(&mut domain);
         let mut context = Linearizer::new_from_with_bounds(constraints, domain, bounds);
         let objective_type = objective.objective_type.clone();
@@ -1644,6 +1644,29 @@ impl Linearizer {
             domain,
         ))
     }
+}
+
+/// Bound inference reads constraints syntactically (a coefficient must be a
+/// literal), so it is given the same flattened and simplified form the
+/// lowering itself works on: `-2 * x`, `(0 - 2) * x` and `-2x` then yield the
+/// same bounds.
+pub(crate) fn normalized_for_bounds(constraints: &[Constraint]) -> Vec<Constraint> {
+    constraints
+        .iter()
+        .map(|constraint| {
+            let lhs = constraint.lhs().clone().flatten().simplify();
+            if constraint.is_logic_assertion() {
+                Constraint::new_logic_assertion(lhs, constraint.name().to_string())
+            } else {
+                Constraint::new(
+                    lhs,
+                    constraint.constraint_type(),
+                    constraint.rhs().clone().flatten().simplify(),
+                    constraint.name().to_string(),
+                )
+            }
+        })
+        .collect()
 }
 
 fn extract_coeffs(exp: &IndexMap<String, f64>, vars: &IndexMap<String, usize>) -> Vec<f64> {
